@@ -12,12 +12,12 @@ EXTENDS IsoGrowth, Json
 VARIABLES hist, emitted
 gvars == <<phase, k, list, noiter, hist, emitted>>
 GInit == Init /\ hist = <<>> /\ emitted = FALSE
-GOut == \E c \in OutCodes(k) : FitOut(Par, c) /\ hist' = Append(hist, <<k, c>>) /\ UNCHANGED emitted
-GIn == \E c \in InCodes : FitIn(Par, c) /\ hist' = Append(hist, <<k, c>>) /\ UNCHANGED emitted
+GOut == \E c \in OutCodes(k) : FitOut(Par, c, FALSE) /\ hist' = Append(hist, <<k, c>>) /\ UNCHANGED emitted
+GIn == \E c \in InCodes(k) : FitIn(Par, c) /\ hist' = Append(hist, <<k, c>>) /\ UNCHANGED emitted
 GCentral == CentralAndSort(Par) /\ UNCHANGED <<hist, emitted>>
 Emit == /\ phase = "done" /\ ~emitted
         /\ PrintT(<<"GEN", ToJson([calls |-> hist, final |-> [n \in 1..Len(list) |-> <<list[n].k, list[n].code>>],
-                                   HasMax |-> HasMax, KMax |-> KMax, KMin |-> KMin, MinZero |-> MinZero])>>)
+                                   HasMax |-> HasMax, KMax |-> KMax, KMin |-> KMin, MinZero |-> MinZero, HasRit |-> HasRit, KRit |-> KRit])>>)
         /\ emitted' = TRUE /\ UNCHANGED <<phase, k, list, noiter, hist>>
 GNext == GOut \/ GIn \/ GCentral \/ Emit
 GSpec == GInit /\ [][GNext]_gvars
